@@ -4,7 +4,7 @@
 set -e
 TAG=${SEEDTAG:-seed}   # SEEDTAG selects a private worktree/mirror/target (several confirmations can run side by side)
 OUT=$1; JS=$2; shift 2
-[ -d /tmp/$TAG-target ] || cp -r /tmp/mut-base-target /tmp/$TAG-target
+[ -d /tmp/$TAG-target ] || cp -a /tmp/mut-base-target /tmp/$TAG-target
 for mode in with without; do
   git -C /tmp/wt-$TAG checkout -q -- . && git -C /tmp/wt-$TAG clean -fdq && git -C /tmp/wt-$TAG checkout -q --detach "$(git -C /repo rev-parse HEAD)"
   [ $mode = with ] && git -C /tmp/wt-$TAG apply "$OUT/patch.diff"
